@@ -121,12 +121,15 @@ def run(ctx):
     consts = {b: const_val(tcp.arg(b, 1)) for b in sf}
     rep.check(r2, sorted(consts.values()) == [ACK, ACK | PSH], 'data:flag-sites', 'set_flags constants on the data arm: %s' % sorted(hex(c) if c is not None else '?' for c in consts.values()), tcp.loc(dh))
     # payload_repl discriminant edges
+    def from_app(x):
+        # the application layer's answer: the slot the get_tcb callback writes, or what get_tcb hands back from its callback
+        return isinstance(x, tuple) and ((x[0] == 'modby' and x[1] == 'proto::tcb::get_tcb') or is_call(x, r'^proto::tcb::get_tcb$'))
     pr = None
     for bi in sorted(datab):
         se = tcp.switch_edges(bi)
         if se and isinstance(se[0], tuple) and se[0][0] == 'discr':
             inner = se[0][1]
-            if any(isinstance(x, tuple) and x[0] == 'modby' and x[1] == 'proto::tcb::get_tcb' for x in walk(inner)):
+            if any(from_app(x) for x in walk(inner)):
                 pr = (bi, se)
     if pr is None:
         rep.bad(r2, 'data:payload-switch', 'no branch on the application-layer result found on the data arm', tcp.loc(dh))
@@ -150,7 +153,7 @@ def run(ctx):
             segs = buf_segments_at(tcp, b, 0) or []
             if on_some:
                 ok = len(segs) == 2 and header_only(segs[:1], r'minimum_packet_size$') and segs[1][0] == 'data' and \
-                    any(isinstance(x, tuple) and x[0] == 'modby' and x[1] == 'proto::tcb::get_tcb' for x in walk(segs[1][1]))
+                    any(from_app(x) for x in walk(segs[1][1]))
                 rep.check(r2, ok, 'data:buffer-with-payload', 'buffer = %s' % short(v)[:140], tcp.loc(b))
             else:
                 ok = header_only(segs, r'minimum_packet_size$')
@@ -169,6 +172,14 @@ def run(ctx):
             if t['k'] == 'call' and t['dest']['p']:
                 st.append((bi, c.lv(t['dest'], (bi, len(b['stmts']))), c.call_expr(bi)))
         okc = any(is_call(v, r'^proto::repl$') and 'arg1' in short(lv) for _, lv, v in st)
+        if not okc:
+            # or the callback returns proto::repl(..) and get_tcb returns what its callback returned
+            rets = [peel(c.ret_value(rb), unwraps=False) for rb in c.return_blocks()]
+            gt = F.fn('proto::tcb::get_tcb')
+            grets = [peel(gt.ret_value(rb), unwraps=False) for rb in gt.return_blocks()]
+            okc = bool(rets) and all(is_call(r_, r'^proto::repl$') for r_ in rets) and bool(grets) and \
+                all(is_call(r_, r'ops::(FnOnce::call_once|FnMut::call_mut|Fn::call)$') for r_ in grets)
+            st = st or [(0, ('ret',), rets[0] if rets else None)]
         rep.check(r2, okc, cid + ':stores-result', 'callback stores proto::repl(..) into the captured reply slot: %s' % [(short(lv)[:40], short(v)[:40]) for _, lv, v in st], '%s:%d' % (c.file, c.line))
     # FIN|ACK arm
     if len(fin_heads) != 1:
